@@ -15,7 +15,9 @@ EXPLANATION = (
     "or after a completed critical section of it, and the set of (lock held, condvar waited on) pairs equals the triaged "
     "table; (C20.3) every state change a sleeper waits for is announced: install_version is followed by the compact / "
     "stall notification, the flush trigger by its notification, and imm_trigger is written nowhere else; (C20.4) a failed "
-    "compaction releases its claim, applying a compaction removes the claim first, and only emit_compaction adds claims.  "
+    "compaction releases its claim, applying a compaction removes the claim first, and only emit_compaction adds claims; "
+    "(C20.5) the accumulator written only under should_perform_mandatory_compaction() reaches emit_compaction on every path and "
+    "under no score comparison.  "
     "HELD/Acquires summaries, ORDER, MUSTPASS, GUARDED over resolved MIR.")
 NOT_DECIDED = ("that a relieving compaction is always selectable (find_best_compaction can return nothing for configuration- and "
                "shape-dependent reasons), scheduler fairness; observation O4: a finishing compaction wakes `stall` waiters but not "
@@ -49,6 +51,7 @@ def rules(ctx):
     c202(ctx)
     c203(ctx)
     c204(ctx)
+    c205(ctx)
     # every write goes through the log's coalescing queues and the store's wait list: a lost wake-up there blocks writes for ever
     from . import C18
     C18.c181(ctx)
@@ -302,6 +305,58 @@ def c203(ctx):
             p = P.reach(f, P.after(f, pt), P.call_points(f, r"lsmtk::tree::Version::next_compaction$"), avoid=set(ts))
             ctx.check(R, f, "compact-recheck", p is None, "after a wake-up the next compaction is chosen from a fresh snapshot",
                       "the compaction thread re-polls a stale version after waking", pt=pt, path=p)
+
+
+OPT_COMPACTION = re.compile(r"^core::option::Option<lsmtk::tree::Compaction>$")
+
+
+def c205(ctx):
+    R = "C20.5"
+    ctx.declare(R, "a compaction selected as mandatory is emitted whatever its score; only the optional candidate is gated on its score")
+    f = ctx.fn(R, "lsmtk::tree::Version::next_compaction")
+    if not f:
+        return
+    ctx.calls(R, f, r"lsmtk::tree::Version::should_perform_mandatory_compaction$", floor=2)
+    # accumulator slots: Option<Compaction> locals that start as None and are later overwritten
+    stores = {}
+    for b in f.blocks:
+        for j, st in enumerate(b.st):
+            if st["s"] == "=" and not st["lhs"]["p"] and OPT_COMPACTION.match(f.locals[st["lhs"]["l"]]) and st["lhs"]["l"] != 0:
+                none = st["rv"]["r"] == "agg" and st["rv"].get("variant") in (None, "None") and not st["rv"].get("ops")
+                stores.setdefault(st["lhs"]["l"], []).append(((b.idx, j), none))
+    slots = {l: [pt for pt, none in v if not none] for l, v in stores.items() if any(n for _p, n in v) and any(not n for _p, n in v)}
+    mand = {l for l, pts in slots.items() if all(true_edge_guard(f, pt, r"Version::should_perform_mandatory_compaction$") for pt in pts)}
+    other = set(slots) - mand
+    ctx.check(R, f, "mandatory-slot", len(mand) == 1 and len(other) >= 1,
+              "one accumulator is written only where should_perform_mandatory_compaction() holds (the mandatory choice); %d other accumulator(s) hold optional candidates" % len(other),
+              "cannot identify the mandatory accumulator in next_compaction (slots written only under should_perform_mandatory_compaction: %d, others: %d)" % (len(mand), len(other)))
+    if len(mand) != 1:
+        return
+    emits = ctx.calls(R, f, r"lsmtk::tree::Version::emit_compaction$", floor=2)
+    m_emits = []
+    for pt in emits:
+        _s, locs = P.value_slice(f, P.term_at(f, pt)["args"][2])
+        if locs & mand and not locs & other:
+            cg = K.compare_guards(f, pt)
+            ctx.check(R, f, "mandatory-ungated", not cg, "the mandatory compaction is emitted under no score comparison",
+                      "emitting the mandatory compaction is conditional on a comparison (%s): when level 0 is over threshold the relieving compaction can be withheld and ingest stalls for ever"
+                      % ", ".join(c["op"] for c in cg), pt=pt)
+            if not cg:
+                m_emits.append(pt)
+    # once chosen, the mandatory compaction reaches emit_compaction on every path (the None edge of its own discriminant is infeasible)
+    avoid_edges = set()
+    for b in P.switch_blocks(f):
+        for s in P.switch_cond_sources(f, b.idx):
+            if s["k"] == "discr":
+                _s, locs = P.value_slice(f, {"k": "copy", "pl": s["st"]["rv"]["pl"]})
+                if locs & mand and not locs & other:
+                    avoid_edges.add((b.idx, "sw:0"))
+                    if {v for v, _t in b.term.get("arms", ())} >= {0, 1}:
+                        avoid_edges.add((b.idx, "otherwise"))   # an Option has no third discriminant
+    for l in mand:
+        for pt in slots[l]:
+            ctx.must_pass(R, f, "emit_compaction(mandatory)", m_emits, goals=P.return_points(f), starts=P.after(f, pt),
+                          avoid_edges=avoid_edges)
 
 
 def c204(ctx):
